@@ -1,11 +1,9 @@
-//! verif-harness: runs the REAL crates (path deps on the tree under test) on case lines.
-//! stdin: one case per line `<id> <kind> <args...>`; stdout: `<id> <canonical observation>`.
-#![allow(clippy::all)]
+//! Shared by every harness binary (included with #[path]): runs the REAL crates (path deps on the tree
+//! under test) on case lines. stdin: one case per line `<id> <kind> <args...>`; stdout: `<id> <observation>`.
+#![allow(dead_code)]
 
 use std::io::{BufRead, Write};
 use std::panic::{catch_unwind, AssertUnwindSafe};
-
-mod add;
 
 pub fn hex(b: &[u8]) -> String {
     let mut s = String::with_capacity(b.len() * 2);
@@ -22,15 +20,7 @@ pub fn unhex(s: &str) -> Vec<u8> {
     (0..s.len() / 2).map(|i| u8::from_str_radix(&s[2 * i..2 * i + 2], 16).unwrap()).collect()
 }
 
-fn dispatch(kind: &str, args: &[&str]) -> String {
-    match kind {
-        "add" => add::run(args),
-        "addsweep" => add::sweep(args),
-        _ => format!("unknown-kind {kind}"),
-    }
-}
-
-fn main() {
+pub fn main_loop(dispatch: impl Fn(&str, &[&str]) -> String) {
     std::panic::set_hook(Box::new(|_| {}));
     let stdin = std::io::stdin();
     let stdout = std::io::stdout();
